@@ -5,7 +5,6 @@ from __future__ import annotations
 import time
 from collections.abc import Callable, Generator
 from contextlib import contextmanager
-from functools import cache
 from typing import Any
 
 from ..config import ParserConfig
@@ -34,11 +33,27 @@ type RuleOutcome = RuleResult | ParseException
 type MemoCache = dict[MemoKey, RuleOutcome]
 
 
-@cache
+# NOTE: the actions are looked up on a particular semantics object, so the
+#   cache is keyed by its identity: objects that compare equal are not the
+#   same object (the entry keeps the object alive, so its id() is not reused)
+_semantic_action_cache: dict[tuple[int, str], tuple[Any, Callable[..., Any] | None]] = {}
+
+
 def find_cached_semantic_action(semantics: Any, name: str) -> Callable[..., Any] | None:
     if not semantics:
         return None
 
+    key = (id(semantics), name)
+    cached = _semantic_action_cache.get(key)
+    if cached is not None and cached[0] is semantics:
+        return cached[1]
+
+    action = lookup_semantic_action(semantics, name)
+    _semantic_action_cache[key] = (semantics, action)
+    return action
+
+
+def lookup_semantic_action(semantics: Any, name: str) -> Callable[..., Any] | None:
     for rulename in (name, safe_name(name), name.strip('_'), f'_{name}', f'_{name}_'):
         action = getattr(semantics, safe_name(rulename), None)
         if callable(action):
